@@ -70,7 +70,9 @@ class Ctx:
             self.log.write("TIMEOUT\n")
             if check:
                 raise RuntimeError("timeout: %s" % cmd)
-            return 124, (ex.stdout or ""), (ex.stderr or "")
+            def _s(x):
+                return x.decode("utf-8", "replace") if isinstance(x, bytes) else (x or "")
+            return 124, _s(ex.stdout), _s(ex.stderr) + "\n[timeout after %ss]" % timeout
         if not quiet:
             self.log.write(p.stdout[-4000:] + "\n" + p.stderr[-4000:] + "\n")
         if check and p.returncode != 0:
@@ -177,7 +179,7 @@ class Ctx:
                         out.append(sub + "/" + f)
         return out
 
-    def coq_make(self, targets=None, clean=False, timeout=2400):
+    def coq_make(self, targets=None, clean=False, timeout=None):
         """Full .vo build (no -vos) of the development, or of the given .vo targets."""
         lk = None if self.private_coq else self.lock("coq")
         try:
@@ -189,6 +191,8 @@ class Ctx:
             if clean:
                 self.run("find . -name '*.vo' -o -name '*.glob' -o -name '*.aux' -o -name '*.vos' -o -name '*.vok' | xargs rm -f",
                          cwd=self.coqdir)
+            if timeout is None:
+                timeout = 900 if targets else 2400
             cmd = ["make", "-f", "Makefile.coq", "-j16", "-k"] + (targets or [])
             rc, so, se = self.run(cmd, cwd=self.coqdir, timeout=timeout, check=False)
             return rc, so, se
